@@ -87,8 +87,10 @@ Expected(h, src, f, spoof) ==
 \* response headers: nothing is stripped (the client's request headers are irrelevant)
 ExpectedResp(h, src, f) == Derived(Effective(src, f), src, f, h)
 
-Req_Upstream(src, f, spoof) == LET hs == ReqHeaders(f) IN [i \in 1..Len(hs) |-> [name |-> hs[i].name, tags |-> Expected(hs[i], src, f, spoof)]]
-Req_AuthOnly(src, f)        == LET hs == RespHeaders(f) IN [i \in 1..Len(hs) |-> [name |-> hs[i].name, tags |-> ExpectedResp(hs[i], src, f)]]
+\* "exactly the values": as a multiset - the order of the values of one header is not the property's business
+Bag(tags) == [bag |-> tags]
+Req_Upstream(src, f, spoof) == LET hs == ReqHeaders(f) IN [i \in 1..Len(hs) |-> [name |-> hs[i].name, tags |-> Bag(Expected(hs[i], src, f, spoof))]]
+Req_AuthOnly(src, f)        == LET hs == RespHeaders(f) IN [i \in 1..Len(hs) |-> [name |-> hs[i].name, tags |-> Bag(ExpectedResp(hs[i], src, f))]]
 
 \* ---- cases ---------------------------------------------------------------------------------
 Mk(ep, f, src, spoof, st) == [endpoint |-> ep, flags |-> f, source |-> src, spoof |-> spoof, store |-> st]
@@ -143,7 +145,7 @@ Next == UNCHANGED c
 
 IsStruct(d) == "struct" \in DOMAIN d
 CaseRec(d) == [fam |-> "c07", in |-> d,
-               req |-> [headers |-> IF IsStruct(d) THEN << [name |-> "X-Vp-Ident", tags |-> SExpected(d)] >>
+               req |-> [headers |-> IF IsStruct(d) THEN << [name |-> "X-Vp-Ident", tags |-> Bag(SExpected(d))] >>
                                     ELSE IF d.endpoint = "upstream" THEN Req_Upstream(d.source, d.flags, d.spoof) ELSE Req_AuthOnly(d.source, d.flags),
                         served |-> TRUE]]
 EmitVocab == JsonSerialize("vocab.json", Vocab)
